@@ -14,7 +14,9 @@ def single_expr(body_or_expr):
     while isinstance(e, dict) and e.get("k") == "block":
         st = hir.stmts_of(e)
         if len(st) != 1:
-            raise Unrecognised("a single expression was expected")
+            import hirpp
+            raise Unrecognised(f"the body was expected to be a single expression, found {len(st)} statements"
+                               + (f" starting `{hirpp.expr(st[0])[:70]}` (line {st[0].get('ln', '?')})" if st else ""))
         e = hir.simp(st[0])
     return e
 
